@@ -742,6 +742,7 @@ fn mk_redir(spec: &str, rcs: &mut Vec<(String, Rc<File>)>, for_input: bool) -> R
         } else {
             std::fs::OpenOptions::new().create(true).append(true).open(p).unwrap()
         };
+        println!("userfd file {}", f.as_raw_fd());
         Redirection::File(f)
     } else if let Some(rest) = spec.strip_prefix("rcfile:") {
         // rcfile:<id>:<path> -- the same id shares one Rc<File>
@@ -754,6 +755,7 @@ fn mk_redir(spec: &str, rcs: &mut Vec<(String, Rc<File>)>, for_input: bool) -> R
         } else {
             std::fs::OpenOptions::new().create(true).read(true).append(true).open(p).unwrap()
         };
+        println!("userfd rc{} {}", id, f.as_raw_fd());
         let rc = Rc::new(f);
         rcs.push((id.to_string(), Rc::clone(&rc)));
         Redirection::RcFile(rc)
